@@ -56,7 +56,71 @@ func (b *mdBroker) History(ch string, opts centrifuge.HistoryOptions) ([]*centri
 	return b.GateBroker.History(ch, opts)
 }
 
+// mdTimers implements centrifuge.TimerScheduler for the aimed (timed) behaviours: client timers never fire by
+// themselves. Every ScheduleTimer call is attributed to the connection the replay is operating on (`label`: connect,
+// or the tick it just fired, which re-arms itself); fire runs the latest pending timer of one connection.
+type mdTimers struct {
+	mu      sync.Mutex
+	label   string
+	pending map[string]*mdTimer
+}
+
+type mdTimer struct {
+	cb        func()
+	cancelled atomic.Bool
+}
+
+func (t *mdTimer) Cancel() { t.cancelled.Store(true) }
+
+func (m *mdTimers) ScheduleTimer(_ time.Duration, cb func()) centrifuge.TimerCanceler {
+	t := &mdTimer{cb: cb}
+	m.mu.Lock()
+	m.pending[m.label] = t
+	m.mu.Unlock()
+	return t
+}
+
+func (m *mdTimers) setLabel(l string) {
+	m.mu.Lock()
+	m.label = l
+	m.mu.Unlock()
+}
+
+func (m *mdTimers) take(l string) *mdTimer {
+	m.mu.Lock()
+	defer m.mu.Unlock()
+	t := m.pending[l]
+	delete(m.pending, l)
+	if t == nil || t.cancelled.Load() {
+		return nil
+	}
+	return t
+}
+
+// the end of a connection's periodic tick, reported by the repository's own verif hook verifGate("tick:done")
+var (
+	mdTickDone     sync.Map // client id -> chan struct{}
+	mdTickHookOnce sync.Once
+)
+
+func mdInstallTickHook() {
+	mdTickHookOnce.Do(func() {
+		centrifuge.VerifSetGate(func(point, clientID, _ string) {
+			if point != "tick:done" {
+				return
+			}
+			if v, ok := mdTickDone.Load(clientID); ok {
+				select {
+				case v.(chan struct{}) <- struct{}{}:
+				default:
+				}
+			}
+		})
+	})
+}
+
 type mdWorker struct {
+	timers *mdTimers
 	env  *cl.Env
 	gb   *cl.GateBroker
 	skew atomic.Int64 // nanoseconds added to the injected clocks
@@ -93,9 +157,18 @@ type mdRun struct {
 	nticks int
 }
 
-func newMdWorker(qmax int) (*mdWorker, error) {
+func newMdWorker(qmax int, manual bool) (*mdWorker, error) {
 	w := &mdWorker{qmax: qmax}
+	checkDelay := time.Hour
+	var sched centrifuge.TimerScheduler
+	if manual {
+		w.timers = &mdTimers{pending: map[string]*mdTimer{}}
+		sched = w.timers
+		checkDelay = 40 * time.Second
+		mdInstallTickHook()
+	}
 	env, err := cl.NewEnv(centrifuge.Config{
+		ClientTimerScheduler: sched,
 		LogLevel: centrifuge.LogLevelTrace,
 		LogHandler: func(e centrifuge.LogEntry) {
 			if e.Level != centrifuge.LogLevelTrace || e.Message != "-out->" {
@@ -119,7 +192,7 @@ func newMdWorker(qmax int) (*mdWorker, error) {
 				}
 			}
 		},
-		ClientChannelPositionCheckDelay: time.Hour,
+		ClientChannelPositionCheckDelay: checkDelay,
 		ClientPresenceUpdateInterval:    40 * time.Millisecond,
 		GetChannelMediumOptions: func(ch string) centrifuge.ChannelMediumOptions {
 			r := w.cur.Load()
@@ -410,6 +483,9 @@ func (w *mdWorker) run(bi int, beh []map[string]any, delay time.Duration) (o mdO
 		return nil
 	}
 	for _, s := range subs {
+		if w.timers != nil {
+			w.timers.setLabel(s)
+		}
 		c, err := w.env.NewConn(s, centrifuge.ProtocolTypeJSON)
 		if err != nil {
 			o.mismatch = "NewConn: " + err.Error()
@@ -421,6 +497,8 @@ func (w *mdWorker) run(bi int, beh []map[string]any, delay time.Duration) (o mdO
 			return
 		}
 		r.alive.Store(c.Client.ID(), &atomic.Int64{})
+		mdTickDone.Store(c.Client.ID(), make(chan struct{}, 8))
+		defer mdTickDone.Delete(c.Client.ID())
 		if err := subscribe(s); err != nil {
 			o.mismatch = err.Error()
 			return
@@ -501,6 +579,8 @@ func (w *mdWorker) run(bi int, beh []map[string]any, delay time.Duration) (o mdO
 	}
 
 	tickUniform := true
+	soft := "" // a disagreement that is reported (as drift) only when no monitor fires
+	tickOnly := ""
 	tickJudge := false // a tick compared positions: judge once its asynchronous ends ran
 	for si := 1; si < len(beh); si++ {
 		st := beh[si]
@@ -626,6 +706,62 @@ func (w *mdWorker) run(bi int, beh []map[string]any, delay time.Duration) (o mdO
 			}
 			o.counts["tick_"+res]++
 			tickJudge = res != "error" && (!opts.Shared || tickUniform) && r.top == vh.Int(st["top"])
+			tickOnly = ""
+		case "Nop":
+		case "Advance":
+			w.skew.Add(int64(time.Duration(vh.Int(step["d"])) * time.Second))
+		case "TickOne":
+			if w.timers == nil {
+				o.mismatch = "TickOne needs the manual timer scheduler"
+				return
+			}
+			s := vh.Str(step["s"])
+			res := vh.Str(step["res"])
+			tickUniform = true
+			var tpos []uint64
+			for _, x := range subs {
+				if positioned(x) {
+					if live, pos := mdLiveAt(r.project(x)); live {
+						tpos = append(tpos, pos)
+						if pos != tpos[0] {
+							tickUniform = false
+						}
+					}
+				}
+			}
+			w.timers.setLabel(s)
+			tm := w.timers.take(s)
+			if tm == nil {
+				o.mismatch = "no pending timer for connection " + s
+				return
+			}
+			dv, _ := mdTickDone.Load(r.conns[s].Client.ID())
+			done := dv.(chan struct{})
+			for len(done) > 0 {
+				<-done
+			}
+			histBefore := r.histCalls.Load()
+			tm.cb()
+			select {
+			case <-done:
+			case <-time.After(mdStepTimeout):
+				o.mismatch = "the periodic tick of " + s + " did not finish"
+				return
+			}
+			time.Sleep(5 * time.Millisecond) // presenceInFlight is reset right after the hook
+			performed := vh.Bool(step["performed"])
+			if got := r.histCalls.Load() > histBefore; got != performed && soft == "" {
+				soft = fmt.Sprintf("step %d TickOne(%s) at t=%d s: stream top read = %v, model performed = %v", si, s, vh.Int(step["now"]), got, performed)
+			}
+			if res != "valid" && res != "notdue" {
+				o.nontrivial = true
+			}
+			o.counts["tickone_"+res]++
+			tickJudge = performed && res != "error" && (!opts.Shared || tickUniform)
+			tickOnly = ""
+			if !(opts.Shared && vh.Bool(st["med"])) {
+				tickOnly = s // without the shared check a tick compares (and ends) only the caller's subscription
+			}
 		case "Unsubscribe":
 			s := vh.Str(step["s"])
 			c := r.conns[s]
@@ -681,7 +817,7 @@ func (w *mdWorker) run(bi int, beh []map[string]any, delay time.Duration) (o mdO
 		if tickJudge {
 			tickJudge = false
 			for _, s := range subs {
-				if !positioned(s) {
+				if !positioned(s) || (tickOnly != "" && s != tickOnly) {
 					continue
 				}
 				if live, pos := mdLiveAt(r.project(s)); live && pos != uint64(r.top) {
@@ -721,6 +857,9 @@ func (w *mdWorker) run(bi int, beh []map[string]any, delay time.Duration) (o mdO
 			o.mismatch = "after the last step: " + what
 		}
 	}
+	if o.mismatch == "" {
+		o.mismatch = soft
+	}
 	o.frames = map[string][]mdFrame{}
 	for _, s := range subs {
 		o.frames[s] = r.project(s)
@@ -729,6 +868,7 @@ func (w *mdWorker) run(bi int, beh []map[string]any, delay time.Duration) (o mdO
 }
 
 type mdReplayIn struct {
+	Manual     bool               `json:"manual"` // aimed, timed behaviours: manual client timers, check delay 40 s
 	QMax       int                `json:"qmax"`
 	Behaviours [][]map[string]any `json:"behaviours"`
 }
@@ -742,7 +882,7 @@ func mdReplay(in json.RawMessage, res *vh.Result) error {
 	jobs := make(chan int)
 	var wg sync.WaitGroup
 	for i := 0; i < nw; i++ {
-		w, err := newMdWorker(ri.QMax)
+		w, err := newMdWorker(ri.QMax, ri.Manual)
 		if err != nil {
 			return err
 		}
